@@ -350,7 +350,18 @@ func main() {
 				{Name: "V", Type: t},
 			})
 		}
+		selfRef := i%83 == 11
+		if selfRef {
+			// an ACYCLIC value holding a pointer to its own first field (same address, other type) under
+			// CheckCircularRef: the reference stack must compare type AND address in every build
+			inner := reflect.StructOf([]reflect.StructField{{Name: "A", Type: reflect.TypeOf(int64(0))}, {Name: "B", Type: reflect.TypeOf("")}})
+			t = reflect.StructOf([]reflect.StructField{{Name: "First", Type: inner}, {Name: "Ref", Type: reflect.PointerTo(inner)}, {Name: "V", Type: t}})
+			o["CheckCircularRef"] = true
+		}
 		v := vh.RandValue(r, t, vh.ValOpts{BigLens: true, NoNaN: format == "json", NoInf: format == "json", MaxLen: 5})
+		if selfRef {
+			v.Field(1).Set(v.Field(0).Addr())
+		}
 		if i%83 == 7 { // zero padding (but for its last byte): a mis-addressed field then reads zeros, not wild headers
 			pad := v.Field(0)
 			pad.Set(reflect.Zero(pad.Type()))
@@ -361,7 +372,11 @@ func main() {
 		var enc []byte
 		e1 := guarded(func() result {
 			var b []byte
-			err := codec.NewEncoderBytes(&b, h).Encode(v.Interface())
+			arg := v.Interface()
+			if selfRef {
+				arg = v.Addr().Interface() // by pointer: the copy made by Interface() would not contain its own address
+			}
+			err := codec.NewEncoderBytes(&b, h).Encode(arg)
 			return result{err != nil, b, 0}
 		})
 		enc = e1.data
